@@ -287,7 +287,12 @@ func (s *S) Yield(site string, ready func() bool) {
 	if pick == nil {
 		s.abort("deadlock", self)
 	}
-	s.log.EventInts(site, int64(self.id), int64(pick.id))
+	s.log.EventL(site, func() string {
+		if pick == self {
+			return fmt.Sprintf("step %d: t%d at %s, keeps running", s.Step, self.id, site)
+		}
+		return fmt.Sprintf("step %d: t%d parks at %s; t%d runs (was at %s)", s.Step, self.id, site, pick.id, pick.site)
+	}, int64(self.id), int64(pick.id))
 	if debug {
 		fmt.Fprintf(os.Stderr, "step %d: t%d@%s -> t%d | %s\n", s.Step, self.id, site, pick.id, s.Describe())
 	}
@@ -353,7 +358,7 @@ func (s *S) Exit() {
 	self := s.cur
 	self.done = true
 	pick := s.decide(nil)
-	s.log.EventInts("exit", int64(self.id))
+	s.log.EventL("exit", func() string { return fmt.Sprintf("step %d: t%d exits", s.Step, self.id) }, int64(self.id))
 	if pick == nil {
 		// nobody can run although main (at least) is alive: deadlock
 		s.setAborted("deadlock")
